@@ -72,6 +72,9 @@ GLOM_TYPES = ['_AbstractIterable', '_ObjStyleKeys']
 OPS = ['get', 'iterate', 'keys', 'assign', 'delete']
 USER_OPS = ['uop']
 USER_AUTOS = ['auto_none', 'user_const', 'user_iterlike']
+# auto-discovery functions that make register()/register_op() raise TypeError for some types
+BAD_AUTOS = ['user_bad_iter', 'user_raise_slots']
+BAD_TAGS = ['!bad', '!bad:0', '!bad:none']        # keyword values register() refuses
 
 
 # --------------------------------------------------------------------------- classes
@@ -178,6 +181,9 @@ _HANDLERS = {}
 def handler_of(tag, op):
     if tag is None:
         return False
+    if tag.startswith('!'):
+        # a value that is neither False nor callable
+        return {'!bad': 'not-callable', '!bad:0': 0, '!bad:none': None}[tag]
     k = (tag, op)
     if k not in _HANDLERS:
         _HANDLERS[k] = mk_handler(tag, op)
@@ -193,6 +199,17 @@ def user_auto(name, op):
     if name == 'user_iterlike':
         h = handler_of('h:auto:iterlike', op)
         return lambda t: h if callable(getattr(t, '__iter__', None)) else False
+    if name == 'user_bad_iter':
+        h = handler_of('h:auto:const', op)
+        return lambda t: 'not-callable' if callable(getattr(t, '__iter__', None)) else h
+    if name == 'user_raise_slots':
+        h = handler_of('h:auto:const', op)
+
+        def f(t):
+            if '__slots__' in vars(t):
+                raise ValueError('no support for ' + t.__name__)
+            return h
+        return f
     raise ValueError(name)
 
 
@@ -219,10 +236,20 @@ def hier_tables(env, specs):
     autos = {'auto_' + op: f for op, f in fresh._op_auto_map.items()}
     autos['auto_assign'] = mutation._assign_autodiscover
     autos['auto_delete'] = mutation._delete_autodiscover
-    for u in USER_AUTOS:
+    for u in USER_AUTOS + BAD_AUTOS:
         f = user_auto(u, 'uop')
         autos[u] = f if f is not None else (lambda t: False)
-    auto = [[f, [[c.__name__, hname(fn(c)) or 'False'] for c in classes]] for f, fn in autos.items()]
+
+    def outcome(fn, c):
+        # what register()/register_op() would see: a handler, False, or a value they refuse
+        try:
+            h = fn(c)
+        except Exception:
+            return '!raise'
+        if h is not False and not callable(h):
+            return '!bad'
+        return hname(h) or 'False'
+    auto = [[f, [[c.__name__, outcome(fn, c)] for c in classes]] for f, fn in autos.items()]
     return {'top': 'object', 'mro': mro, 'inst': inst, 'sub': sub, 'auto': auto, 'universe': names}
 
 
@@ -365,23 +392,55 @@ def run_impl(case):
                 kw = {op: handler_of(tag, op) for op, tag in a['kw']}
                 if a['exact'] or a.get('exact_given'):
                     kw['exact'] = a['exact']
-                if kind == 'module':
-                    glom.register(t, **kw)
-                elif w.glommers[i] is not None:
-                    w.glommers[i].register(t, **kw)
-                else:
-                    reg.register(t, **kw)
-                obs.append(None)
+                try:
+                    if kind == 'module':
+                        glom.register(t, **kw)
+                    elif w.glommers[i] is not None:
+                        w.glommers[i].register(t, **kw)
+                    else:
+                        reg.register(t, **kw)
+                    obs.append(None)
+                except TypeError:
+                    obs.append({'raised': 'TypeError'})
             elif a['a'] == 'register_op':
                 order = known_order(reg)
-                if a['auto'] not in USER_AUTOS:
+                if a['auto'] not in USER_AUTOS + BAD_AUTOS:
                     raise ValueError('unknown auto ' + a['auto'])
                 f = user_auto(a['auto'], a['op'])
-                if kind == 'module':
-                    glom.register_op(a['op'], auto_func=f, exact=a['exact'])
-                else:
-                    reg.register_op(a['op'], auto_func=f, exact=a['exact'])
-                obs.append({'order': order})
+                ob = {'order': order}
+                try:
+                    if kind == 'module':
+                        glom.register_op(a['op'], auto_func=f, exact=a['exact'])
+                    else:
+                        reg.register_op(a['op'], auto_func=f, exact=a['exact'])
+                except TypeError:
+                    ob['raised'] = 'TypeError'
+                obs.append(ob)
+            elif a['a'] == 'bad_call':
+                # a call rejected on its arguments alone
+                what = a['what']
+                try:
+                    if what == 'register-instance':
+                        x = make_instance(env[a['ty']])
+                        kw = {op: handler_of(tag, op) for op, tag in a.get('kw', [])}
+                        if kind == 'module':
+                            glom.register(x, **kw)
+                        elif w.glommers[i] is not None:
+                            w.glommers[i].register(x, **kw)
+                        else:
+                            reg.register(x, **kw)
+                    elif what in ('register_op-name', 'register_op-auto'):
+                        name = 3 if what == 'register_op-name' else a['op']
+                        f = user_auto('user_const', a['op']) if what == 'register_op-name' else 'not-callable'
+                        if kind == 'module':
+                            glom.register_op(name, auto_func=f)
+                        else:
+                            reg.register_op(name, auto_func=f)
+                    else:
+                        raise ValueError(what)
+                    obs.append(None)
+                except TypeError:
+                    obs.append({'raised': 'TypeError'})
             elif a['a'] == 'lookup':
                 x = make_instance(env[a['ty']])
                 try:
@@ -580,7 +639,9 @@ def gen_actions(rng, specs, kinds, nreg, regop_rate=0.06):
 
     def lookups(i, k):
         for _ in range(k):
-            ops = OPS + (['uop'] if user_op_known[i] else [])
+            # an op may be looked up before anybody registered it (the lookup fails; it must not
+            # influence what the same lookup answers once the op is registered)
+            ops = OPS + (['uop'] if user_op_known[i] or rng.random() < 0.15 else [])
             op = rng.choice(['get', 'get', 'iterate'] + ops)
             t = rng.choice(look_pool)
             m = rng.random()
@@ -601,12 +662,20 @@ def gen_actions(rng, specs, kinds, nreg, regop_rate=0.06):
         if rng.random() < 0.15:
             # construct some registry now (a Glommer is built from the module registry of this moment)
             acts.append({'a': 'create', 'reg': rng.randrange(len(kinds))})
-        if rng.random() < regop_rate:
+        m = rng.random()
+        if m < regop_rate:
             op = rng.choice(['uop', 'uop', 'get', 'iterate', 'assign'])
             acts.append({'a': 'register_op', 'reg': i, 'op': op,
-                         'auto': rng.choice(USER_AUTOS), 'exact': rng.random() < 0.3})
+                         'auto': rng.choice(USER_AUTOS * 3 + BAD_AUTOS), 'exact': rng.random() < 0.3})
             if op == 'uop':
                 user_op_known[i] = True
+        elif m < regop_rate + 0.03:
+            acts.append(gen_bad_call(rng, i, reg_pool, tag))
+        elif m < regop_rate + 0.10:
+            # a register() call that must be refused (TypeError) and leave everything as it was
+            acts.append({'a': 'register', 'reg': i, 'ty': rng.choice(reg_pool), 'exact': rng.random() < 0.3,
+                         'exact_given': rng.random() < 0.5,
+                         'kw': gen_bad_kw(rng, OPS + (['uop'] if rng.random() < 0.15 else []), tag)})
         else:
             t = rng.choice(reg_pool)
             nk = rng.choice([0, 1, 1, 1, 2, 3])
@@ -622,6 +691,27 @@ def gen_actions(rng, specs, kinds, nreg, regop_rate=0.06):
         if len(kinds) > 1 and rng.random() < 0.7:
             lookups(rng.randrange(len(kinds)), rng.randint(1, 2))
     return acts
+
+
+def gen_bad_kw(rng, ops_pool, tag):
+    """keyword arguments of a register() call that has to be refused: 1-3 ops of which one — at a
+    random position of the sorted op order, the order in which register() validates — carries a
+    value that is neither False nor callable"""
+    ops = rng.sample(ops_pool, min(rng.choice([1, 2, 2, 3, 3]), len(ops_pool)))
+    bad = rng.choice(ops)
+    return [[op, rng.choice(BAD_TAGS) if op == bad else (None if rng.random() < 0.1 else tag())]
+            for op in ops]
+
+
+def gen_bad_call(rng, i, type_pool, tag):
+    """a call refused on its arguments alone: an instance instead of a type, an op name that is no
+    string, an auto_func that is not callable"""
+    what = rng.choice(['register-instance', 'register-instance', 'register_op-name', 'register_op-auto'])
+    if what == 'register-instance':
+        ops = rng.sample(OPS, rng.choice([0, 1, 2]))
+        return {'a': 'bad_call', 'reg': i, 'what': what, 'ty': rng.choice(type_pool),
+                'kw': [[op, tag()] for op in ops]}
+    return {'a': 'bad_call', 'reg': i, 'what': what, 'op': rng.choice(['uop', 'get', 'iterate', 'assign'])}
 
 
 KIND_POOL = ['module', 'registry:1', 'registry:0', 'glommer:1', 'glommer:1', 'glommer:0']
@@ -818,6 +908,134 @@ def regop_stream(rng, n):
         yield {'classes': specs, 'kinds': [kind], 'actions': acts}
 
 
+def _same_lookup(rng, op, t, force_plain=False):
+    m = rng.random()
+    if force_plain or op not in ('get', 'iterate', 'assign', 'delete') or m < 0.55:
+        return {'a': 'lookup', 'reg': 0, 'op': op, 'ty': t, 'raise': rng.random() < 0.8}
+    return {'a': 'glom', 'reg': 0, 'spec': op, 'ty': t}
+
+
+def fail_then_register_stream(rng, n):
+    """lookups that FAIL — a bare registry, an op nobody registered yet, a type without a handler for
+    the op — then, with no other registration in between, the registration that makes them succeed
+    (register_op(new_op, auto_func) / register(type, op=handler) on the type or on a base), then the
+    same lookups again, then an unrelated registration and the lookups a third time"""
+    for _ in range(n):
+        specs = rng.choice([h_chain, h_mixin, h_diamond, h_builtin, h_virtual])(rng)
+        if not valid_classes(specs):
+            continue
+        names = [c['name'] for c in specs]
+        mode = rng.choice(['new-op', 'new-op', 'bare', 'no-handler'])
+        if mode == 'bare':
+            kind = rng.choice(['registry:0', 'glommer:0'])
+            op = rng.choice(OPS)
+        else:
+            kind = rng.choice(['registry:0', 'glommer:0', 'registry:1', 'glommer:1', 'module'])
+            op = 'uop' if mode == 'new-op' else rng.choice(['iterate', 'keys', 'assign', 'delete', 'uop'])
+        acts = []
+        tagn = [0]
+
+        def tag():
+            tagn[0] += 1
+            return 'h:%d' % tagn[0]
+        if mode != 'bare':
+            # some history first: known types, non-empty tables and trees for the other ops
+            other = [o for o in OPS if o != op]
+            for t in rng.sample(names, rng.randint(0, len(names))):
+                acts.append({'a': 'register', 'reg': 0, 'ty': t, 'exact': rng.random() < 0.3,
+                             'kw': [[rng.choice(other), tag()]] if rng.random() < 0.7 else []})
+        targets = rng.sample(names, rng.randint(1, min(3, len(names))))
+        if rng.random() < 0.3:
+            targets.append(rng.choice(['dict', 'list', 'str', 'int', 'tuple', 'object']))
+        first = [_same_lookup(rng, op, t) for t in targets]
+        acts += first
+        # the registration that makes (some of) them succeed
+        spec_of = {c['name']: c for c in specs}
+        if op == 'uop' and rng.random() < 0.6:
+            acts.append({'a': 'register_op', 'reg': 0, 'op': op,
+                         'auto': rng.choice(['user_const', 'user_const', 'user_iterlike']),
+                         'exact': rng.random() < 0.3})
+        else:
+            t = rng.choice(targets)
+            bases = [b for b in spec_of.get(t, {'bases': []})['bases']]
+            exact = rng.random() < 0.25
+            if bases and not exact and rng.random() < 0.4:
+                t = rng.choice(bases)
+            acts.append({'a': 'register', 'reg': 0, 'ty': t, 'exact': exact, 'exact_given': rng.random() < 0.5,
+                         'kw': [[op, tag()]]})
+        acts += [dict(a) if rng.random() < 0.6 else _same_lookup(rng, op, a['ty']) for a in first]
+        if rng.random() < 0.5:
+            acts.append({'a': 'register', 'reg': 0, 'ty': rng.choice(['int', 'str', 'object'] + names),
+                         'exact': rng.random() < 0.5, 'kw': []})
+            acts += [_same_lookup(rng, op, a['ty']) for a in first]
+        yield {'classes': specs, 'kinds': [kind], 'actions': acts}
+
+
+def rejected_stream(rng, n):
+    """a valid history, then a registration that is REFUSED (TypeError: a handler that is not
+    callable — before, between or after valid ones in the sorted op order —, an auto-discovery
+    function that raises or returns a non-callable, an instance instead of a type, a bad op name /
+    auto_func), on a type that was / was not looked up before, then lookups of every class, an
+    unrelated valid registration, and the lookups again: all of them must answer as if the refused
+    call had never been made"""
+    for _ in range(n):
+        specs = rng.choice([h_chain, h_chain, h_mixin, h_diamond, h_builtin, h_virtual, h_virtual_diamond])(rng)
+        if not valid_classes(specs):
+            continue
+        names = [c['name'] for c in specs]
+        kind = rng.choice(['registry:0', 'registry:1', 'glommer:1', 'glommer:1', 'module', 'glommer:0'])
+        tagn = [0]
+
+        def tag():
+            tagn[0] += 1
+            return 'h:%d' % tagn[0]
+        ops = rng.sample(OPS, rng.choice([1, 2, 2, 3]))
+        acts = []
+        mode = rng.choice(['kw', 'kw', 'kw', 'kw', 'auto-in-register', 'register_op', 'register_op', 'bad-call'])
+        if mode == 'auto-in-register':
+            # an op whose auto-discovery function refuses some types: registered while no such type
+            # is known, so that a later register(<such a type>) is refused
+            acts.append({'a': 'register_op', 'reg': 0, 'op': 'uop', 'auto': rng.choice(BAD_AUTOS),
+                         'exact': rng.random() < 0.3})
+        elif mode == 'register_op' and rng.random() < 0.6:
+            # the op is introduced by a register() keyword: its table covers only that type
+            acts.append({'a': 'register', 'reg': 0, 'ty': rng.choice(names), 'exact': rng.random() < 0.3,
+                         'kw': [['uop', tag()]]})
+        for t in rng.sample(names, rng.randint(1, len(names))):
+            acts.append({'a': 'register', 'reg': 0, 'ty': t, 'exact': rng.random() < 0.2,
+                         'kw': [[o, tag()] for o in ops if rng.random() < 0.8]})
+        look_ops = list(ops)
+        if mode in ('auto-in-register', 'register_op'):
+            look_ops.append('uop')
+        if rng.random() < 0.5:
+            # memoise some answers first
+            for q in rng.sample(names, rng.randint(1, len(names))):
+                acts.append(_same_lookup(rng, rng.choice(look_ops), q))
+        if mode == 'kw':
+            pool = sorted(set(ops + rng.sample(OPS, 2) + (['uop'] if rng.random() < 0.2 else [])))
+            kw = gen_bad_kw(rng, pool, tag)
+            look_ops = sorted(set(look_ops) | {o for o, _ in kw})
+            acts.append({'a': 'register', 'reg': 0, 'ty': rng.choice(names * 3 + ['dict', 'object']),
+                         'exact': rng.random() < 0.3, 'exact_given': rng.random() < 0.5, 'kw': kw})
+        elif mode == 'auto-in-register':
+            acts.append({'a': 'register', 'reg': 0, 'ty': rng.choice(names), 'exact': rng.random() < 0.3,
+                         'kw': [[o, tag()] for o in ops if rng.random() < 0.7]})
+        elif mode == 'register_op':
+            acts.append({'a': 'register_op', 'reg': 0, 'op': rng.choice(['uop', 'uop', 'get', 'iterate']),
+                         'auto': rng.choice(BAD_AUTOS), 'exact': rng.random() < 0.3})
+        else:
+            acts.append(gen_bad_call(rng, 0, names + ['dict'], tag))
+        after = []
+        for q in names:
+            for o in rng.sample(look_ops, min(len(look_ops), rng.choice([1, 2]))):
+                after.append(_same_lookup(rng, o, q))
+        acts += after
+        acts.append({'a': 'register', 'reg': 0, 'ty': rng.choice(['int', 'str', 'tuple']), 'exact': rng.random() < 0.5,
+                     'kw': []})
+        acts += [dict(a) for a in after]
+        yield {'classes': specs, 'kinds': [kind], 'actions': acts}
+
+
 def generate(rng, tier, scale, **focus):
     n = (1100 if tier == 'quick' else 25000) * scale
     maxreg = 8
@@ -826,6 +1044,8 @@ def generate(rng, tier, scale, **focus):
     yield from reregistration_stream(rng, (300 if tier == 'quick' else 5000) * scale)
     yield from cross_branch_stream(rng, (300 if tier == 'quick' else 5000) * scale)
     yield from regop_stream(rng, (60 if tier == 'quick' else 1000) * scale)
+    yield from fail_then_register_stream(rng, (150 if tier == 'quick' else 3000) * scale)
+    yield from rejected_stream(rng, (200 if tier == 'quick' else 4000) * scale)
     if tier == 'thorough' and not focus.get('no_exhaustive'):
         yield from exhaustive()
 
